@@ -13,6 +13,8 @@ and the clauses checked on `r = m.rename_symbols(renames)` are
                xreplace, dictionary keys by the map), converters' key order included
   untouched    symbols whose name is not renamed are where they were (part of `attributes`)
   assumptions  a renamed symbol keeps its assumptions (fresh target) or is the existing symbol
+               — compared as COMPLETE assumptions0 dicts (every True- and False-valued fact) on the symbols
+               actually found in the result; the generators stored in the new symbol regenerate them
   closure      C01 still holds for r when it held for m (needs: no parameter identified with a
                kinematic variable)
   original     m is not mutated (deep snapshot before/after), r is a new object for a non-empty map
@@ -73,6 +75,16 @@ def same_model(a, b) -> bool:
             and list(a.components.items()) == list(b.components.items()) and a.reaction_info == b.reaction_info)
 
 
+def mixes_commutativity(m, renames: dict) -> bool:
+    """Does the map identify a commutative with a non-commutative symbol? SymPy cannot build such a model's expression
+    (Abs of the amplitude recurses without end — the same reason a non-commutative coupling cannot be formulated at
+    all), so these maps are outside the domain of the property."""
+    groups: dict = {}
+    for s in all_symbols(m):
+        groups.setdefault(renames.get(s.name, s.name), set()).add(bool(s.is_commutative))
+    return any(len(g) > 1 for g in groups.values())
+
+
 def is_canonical(m) -> bool:
     """Every expression of the model is a fixed point of rebuilding it through its constructors."""
     for e in [m.intensity, *m.amplitudes.values(), *m.components.values(), *m.kinematic_variables.values()]:
@@ -130,6 +142,9 @@ def check_case(m, renames_arg, rng=None, numeric: bool = True, pickle_check: boo
     fails: list[dict] = []
     facts: dict = {}
     renames = dict(renames_arg)
+    if mixes_commutativity(m, renames):
+        facts["mixes_commutativity"] = True
+        return fails, facts
     before = snapshot(m)
     r = m.rename_symbols(renames_arg)
     facts["result"] = r
